@@ -22,8 +22,8 @@ func init() {
 		Technique: "goroutine-affinity reachability on a package-local call graph (static calls, interface calls resolved by method sets, bound-method and argument closures; go statements and timer callbacks as roots), explicit-panic census with guard classification, invariant-establishing store/call census, guard presence obligations for RFC 7540 stream rules on go/ssa",
 		Meta: core.Meta{
 			Level:       "other",
-			Explanation: "Decides, for package bfe_http2: (A) goroutine affinity: no function that asserts serveG.Check() is reachable from a non-serve goroutine root (go statements, timer callbacks, the handler-facing API of responseWriter/RequestBody/chunkWriter and the exported timeout/close functions) and no function that asserts serveG.CheckNotOn() is reachable from serverConn.serve without crossing a go statement; every serve-owned field of serverConn and stream is accessed only by functions outside the non-serve-reachable set. (B) explicit-panic census of server.go, flow.go, writesched.go, write.go: every panic site must match a reviewed entry (function + guarding condition); for the state-invariant panics the establishing code is checked: closeStream is called only with a stream taken from sc.streams (lookup, range, serverConn.state) or under a state test, sc.streams is inserted only in processHeaders and deleted only in closeStream together with state=closed, stream.state has only the reviewed writers, every stream registered open gets its body pipe before processHeaders returns success (pipe assigned only under !END_STREAM, and conversely every path of newWriterAndRequest that established !END_STREAM reaches a successful return only through a non-nil pipe assignment, whatever the request's attributes such as content-length), sc.curOpenStreams moves in lockstep with sc.streams on every path of every function (an inserted stream is counted before any return, including error returns that the caller answers with resetStream -> closeStream; delete and decrement always come together), stream.endStream (which dereferences the body pipe) is called only for streams known to be open, startFrameWrite is called only from scheduleFrameWrite under !writingFrame and at most once per pass, done channels are buffered, END_STREAM-carrying writers always name their stream, reset flags are set before closeStream, maxFrameSize is never stored as zero, every flow.take is guarded by available(), window-update amounts are positive. (C) presence and placement of RFC 7540 rules: odd stream id, strictly increasing id (both dominating stream creation), the advertised concurrency limit (advMaxStreams is what SETTINGS announces and what curOpenStreams is compared with before the handler starts; curOpenStreams changes only in processHeaders/closeStream), trailers must carry END_STREAM, no duplicate trailers, no pseudo-headers in trailers, DATA is accepted only for a registered stream in state open without trailers, request pseudo-header validation in newWriterAndRequest, connection-specific request headers (connHeaders ⊇ RFC 7540 8.1.2.2, TE) routed to the 400 handler, pseudo-header validation before a MetaHeadersFrame is delivered. Not covered: arbitrary frame sequences and schedules (only the per-function necessary conditions above), implicit run-time panics (nil dereference, index, type assertion) other than the body-pipe dereference of endStream, panics inside handlers, frame parsing (C32), flow-control arithmetic (C33).",
-			RuleText:    "obligations = each function asserting goroutine affinity, each serve-owned field, each explicit panic site, each call/store that establishes a panic's invariant, each branch on END_STREAM in newWriterAndRequest, each insertion/removal/count step of the open-stream bookkeeping, each RFC rule (guard + placement)",
+			Explanation: "Decides, for package bfe_http2: (A) goroutine affinity: no function that asserts serveG.Check() is reachable from a non-serve goroutine root (go statements, timer callbacks, the handler-facing API of responseWriter/RequestBody/chunkWriter and the exported timeout/close functions) and no function that asserts serveG.CheckNotOn() is reachable from serverConn.serve without crossing a go statement; every serve-owned field of serverConn and stream is accessed only by functions outside the non-serve-reachable set. (B) explicit-panic census of server.go, flow.go, writesched.go, write.go: every panic site must match a reviewed entry (function + guarding condition); for the state-invariant panics the establishing code is checked: closeStream is called only with a stream taken from sc.streams (lookup, range, serverConn.state) or under a state test, sc.streams is inserted only in processHeaders and deleted only in closeStream together with state=closed, stream.state has only the reviewed writers, every stream registered open gets its body pipe before processHeaders returns success (pipe assigned only under !END_STREAM, and conversely every path of newWriterAndRequest that established !END_STREAM reaches a successful return only through a non-nil pipe assignment, whatever the request's attributes such as content-length), sc.curOpenStreams moves in lockstep with sc.streams on every path of every function (an inserted stream is counted before any return, including error returns that the caller answers with resetStream -> closeStream; delete and decrement always come together), stream.endStream (which dereferences the body pipe) is called only for streams known to be open, startFrameWrite is called only from scheduleFrameWrite under !writingFrame and at most once per pass, done channels are buffered, END_STREAM-carrying writers always name their stream, reset flags are set before closeStream, maxFrameSize is never stored as zero, every flow.take is guarded by available(), window-update amounts are positive; a send window may be negative (RFC 7540 6.9.2), so every signed value that flows from flow.available() through conversions and clamp phis into a slice bound or make size is known non-negative where it is used: by a sign test controlling the site, or, when the window is that of the head frame of a *writeQueue parameter (writeScheduler.takeFrom), at every call site of that function, where the queue passed must have passed `F(q) > 0` for a function F whose every result is provably <= available() of the same head frame (min-clamps, checked) - directly or as an element of a slice field that is filled only under such a test - or must be under a no-payload predicate (true only if the head frame is not DATA or has len(p) == 0, checked, head() == s[0] checked) while the site is reached only for DATA with payload. (C) presence and placement of RFC 7540 rules: odd stream id, strictly increasing id (both dominating stream creation), the advertised concurrency limit (advMaxStreams is what SETTINGS announces and what curOpenStreams is compared with before the handler starts; curOpenStreams changes only in processHeaders/closeStream), trailers must carry END_STREAM, no duplicate trailers, no pseudo-headers in trailers, DATA is accepted only for a registered stream in state open without trailers, request pseudo-header validation in newWriterAndRequest, connection-specific request headers (connHeaders ⊇ RFC 7540 8.1.2.2, TE) routed to the 400 handler, pseudo-header validation before a MetaHeadersFrame is delivered. Not covered: arbitrary frame sequences and schedules (only the per-function necessary conditions above), implicit run-time panics (nil dereference, index, type assertion) other than the body-pipe dereference of endStream and the window-derived slice bounds, a window that changes between the scheduler's filter pass and the take within one scheduling decision (both run on the serve goroutine without an intervening frame), panics inside handlers, frame parsing (C32), flow-control arithmetic (C33).",
+			RuleText:    "obligations = each function asserting goroutine affinity, each serve-owned field, each explicit panic site, each call/store that establishes a panic's invariant, each branch on END_STREAM in newWriterAndRequest, each insertion/removal/count step of the open-stream bookkeeping, each RFC rule (guard + placement), each slice/make bound derived from flow.available() and each call site of a function that delegates its sign",
 			Assumptions: []string{"the handler-facing API is the method sets of responseWriter, RequestBody and chunkWriter plus the exported functions taking a *RequestBody / io.ReadCloser", "callbacks passed to time.AfterFunc run on their own goroutine; the function passed to Pipe.CloseWithErrorAndCode runs in the body reader's goroutine"},
 		},
 		Run:     runC35,
@@ -55,6 +55,11 @@ var c35Mutants = []Mutant{
 	{Name: "registered-stream-returns-uncounted", File: "bfe_http2/server.go", Old: "	sc.streams[id] = st\n	if f.HasPriority() {\n", New: "	sc.streams[id] = st\n	if sc.inGoAway {\n		return StreamError{id, ErrCodeRefusedStream, \"going away\"}\n	}\n	if f.HasPriority() {\n", Expect: "inv-open-count|serverConn.processHeaders:register-counted"},
 	{Name: "validation-before-counting", File: "bfe_http2/server.go", Old: "	sc.curOpenStreams++\n	if sc.curOpenStreams == 1 {\n		sc.setConnState(http.StateActive)\n	}\n", New: "	if f.PseudoValue(\"method\") == \"\" {\n		return StreamError{id, ErrCodeProtocol, \"no method\"}\n	}\n	sc.curOpenStreams++\n	if sc.curOpenStreams == 1 {\n		sc.setConnState(http.StateActive)\n	}\n", Expect: "inv-open-count|serverConn.processHeaders:register-counted"},
 	{Name: "close-uncounts-conditionally", File: "bfe_http2/server.go", Old: "	st.state = stateClosed\n	sc.curOpenStreams--\n", New: "	st.state = stateClosed\n	if !st.sentReset {\n		sc.curOpenStreams--\n	}\n", Expect: "inv-open-count|serverConn.closeStream:unregister-uncounted"},
+	{Name: "sched-filter-accepts-negative-window", File: "bfe_http2/writesched.go", Old: "		if n := ws.streamWritableBytes(q); n > 0 {", New: "		if n := ws.streamWritableBytes(q); n != 0 {", Expect: "inv-sched-quota|writeScheduler.take:takeFrom#2"},
+	{Name: "no-cost-shortcut-widened", File: "bfe_http2/writesched.go", Old: "		if q.firstIsNoCost() {\n			return ws.takeFrom(id, q)", New: "		if q.firstIsNoCost() || len(ws.sq) == 1 {\n			return ws.takeFrom(id, q)", Expect: "inv-sched-quota|writeScheduler.take:takeFrom"},
+	{Name: "quota-function-takes-the-larger", File: "bfe_http2/writesched.go", Old: "	if len(wd.p) < int(ret) {\n		ret = int32(len(wd.p))\n	}\n	return ret", New: "	if len(wd.p) > int(ret) {\n		ret = int32(len(wd.p))\n	}\n	return ret", Expect: "inv-sched-quota|writeScheduler.take:takeFrom#2"},
+	{Name: "silent-take-from-tests-sign-itself", File: "bfe_http2/writesched.go", Old: "		if allowed == 0 {", New: "		if allowed <= 0 {", Silent: true},
+	{Name: "silent-filter-without-local", File: "bfe_http2/writesched.go", Old: "		if n := ws.streamWritableBytes(q); n > 0 {", New: "		if ws.streamWritableBytes(q) >= 1 {", Silent: true},
 	{Name: "silent-count-before-priority", File: "bfe_http2/server.go", Old: "	if f.HasPriority() {\n		adjustStreamPriority(sc.streams, st.id, f.Priority)\n	}\n	sc.curOpenStreams++\n", New: "	sc.curOpenStreams++\n	if f.HasPriority() {\n		adjustStreamPriority(sc.streams, st.id, f.Priority)\n	}\n", Silent: true},
 	{Name: "silent-content-length-before-pipe", File: "bfe_http2/server.go", Old: "	if bodyOpen {\n		if st.defaultStreamWindow() {\n			body.pipe = pipe.NewPipeFromBufferPool(&fixBufferPool)\n		} else {\n			body.pipe = pipe.NewPipeWithSize(st.isw)\n		}\n		if vv, ok := header[\"Content-Length\"]; ok {\n			req.ContentLength, _ = strconv.ParseInt(vv[0], 10, 64)\n		} else {\n			req.ContentLength = -1\n		}\n	}\n", New: "	if bodyOpen {\n		if vv, ok := header[\"Content-Length\"]; ok {\n			req.ContentLength, _ = strconv.ParseInt(vv[0], 10, 64)\n		} else {\n			req.ContentLength = -1\n		}\n		if st.defaultStreamWindow() {\n			body.pipe = pipe.NewPipeFromBufferPool(&fixBufferPool)\n		} else {\n			body.pipe = pipe.NewPipeWithSize(st.isw)\n		}\n	}\n", Silent: true},
 	{Name: "silent-odd-test-rewritten", File: "bfe_http2/server.go", Old: "	if id%2 != 1 {\n", New: "	if id%2 == 0 {\n", Silent: true},
@@ -224,6 +229,7 @@ func runC35(c *core.Ctx) {
 	c35Affinity(c, e)
 	c35Panics(c, e)
 	c35Invariants(c, e)
+	c35SchedQuota(c, e)
 	c35OpenPipeTotal(c, e)
 	c35OpenCount(c, e)
 	c35RFC(c, e)
